@@ -1,8 +1,10 @@
 package an
 
 import (
+	"go/constant"
 	"go/token"
 	"go/types"
+	"sort"
 	"strings"
 
 	"golang.org/x/tools/go/ssa"
@@ -21,13 +23,16 @@ type EdgeCut func(b *ssa.BasicBlock, i int) bool
 // satisfying `to`, not passing through an instruction satisfying `avoid` and not using a cut edge?
 // Panic-terminated blocks have no successors, so paths into a panic never reach anything after it.
 func (p *Prog) PathExists(fn *ssa.Function, from ssa.Instruction, to, avoid Pred, cut EdgeCut) bool {
+	// env: what the path knows about constant boolean results of the transparent helpers it came out of
+	// ("t5#1=false;"): a later branch on such a result follows only the consistent edge
 	type pos struct {
 		b   *ssa.BasicBlock
 		idx int
+		env string
 	}
 	var st pos
 	if from == nil {
-		st = pos{fn.Blocks[0], 0}
+		st = pos{fn.Blocks[0], 0, ""}
 	} else {
 		b := from.Block()
 		i := 0
@@ -36,33 +41,87 @@ func (p *Prog) PathExists(fn *ssa.Function, from ssa.Instruction, to, avoid Pred
 				i = j + 1
 			}
 		}
-		st = pos{b, i}
+		st = pos{b, i, ""}
 	}
 	seen := map[pos]bool{}
-	// after(call): the position following a call instruction
-	after := func(call ssa.Instruction) pos {
+	after := func(call ssa.Instruction) (*ssa.BasicBlock, int) {
 		b := call.Block()
 		for j, in := range b.Instrs {
 			if in == call {
-				return pos{b, j + 1}
+				return b, j + 1
 			}
 		}
-		return pos{b, len(b.Instrs)}
+		return b, len(b.Instrs)
 	}
-	var scan func(b *ssa.BasicBlock, idx int) bool
-	scan = func(b *ssa.BasicBlock, idx int) bool {
+	setEnv := func(env, key string, val bool) string {
+		// replace an older binding of the same result
+		parts := strings.Split(env, ";")
+		var out []string
+		for _, pt := range parts {
+			if pt == "" || strings.HasPrefix(pt, key+"=") {
+				continue
+			}
+			out = append(out, pt)
+		}
+		v := "false"
+		if val {
+			v = "true"
+		}
+		out = append(out, key+"="+v)
+		sort.Strings(out)
+		return strings.Join(out, ";") + ";"
+	}
+	known := func(env string, cond ssa.Value) (bool, bool) {
+		neg := false
+		for {
+			if u, ok := cond.(*ssa.UnOp); ok && u.Op == token.NOT {
+				cond, neg = u.X, !neg
+				continue
+			}
+			break
+		}
+		key := ""
+		switch x := cond.(type) {
+		case *ssa.Extract:
+			if call, ok := x.Tuple.(*ssa.Call); ok && TransparentCallee(call) != nil {
+				key = call.Name() + "#" + itoa(x.Index)
+			}
+		case *ssa.Call:
+			if TransparentCallee(x) != nil {
+				key = x.Name() + "#0"
+			}
+		}
+		if key == "" || env == "" {
+			return false, false
+		}
+		for _, pt := range strings.Split(env, ";") {
+			if strings.HasPrefix(pt, key+"=") {
+				return (pt == key+"=true") != neg, true
+			}
+		}
+		return false, false
+	}
+	var scan func(b *ssa.BasicBlock, idx int, env string) bool
+	scan = func(b *ssa.BasicBlock, idx int, env string) bool {
 		nested := IsTransparent(b.Parent())
 		for j := idx; j < len(b.Instrs); j++ {
 			in := b.Instrs[j]
 			if ret, isRet := in.(*ssa.Return); isRet && nested {
-				// the end of a transparent closure: continue behind its (only) call site
-				_ = ret
-				c := after(transparentSite[b.Parent()])
+				// the end of a transparent helper: continue behind its (only) call site, remembering constant booleans
+				site := transparentSite[b.Parent()]
+				env2 := env
+				for k, r := range ret.Results {
+					if c, isC := r.(*ssa.Const); isC && c.Value != nil && c.Value.Kind() == constant.Bool {
+						env2 = setEnv(env2, site.Name()+"#"+itoa(k), constant.BoolVal(c.Value))
+					}
+				}
+				cb, ci := after(site)
+				c := pos{cb, ci, env2}
 				if seen[c] {
 					return false
 				}
 				seen[c] = true
-				return scan(c.b, c.idx)
+				return scan(cb, ci, env2)
 			}
 			if to != nil && to(in) {
 				return true
@@ -71,30 +130,42 @@ func (p *Prog) PathExists(fn *ssa.Function, from ssa.Instruction, to, avoid Pred
 				return false
 			}
 			if k := TransparentCallee(in); k != nil && len(k.Blocks) > 0 {
-				// step into the closure; its returns come back to j+1 (handled above)
-				e := pos{k.Blocks[0], 0}
+				e := pos{k.Blocks[0], 0, env}
 				if seen[e] {
 					return false
 				}
 				seen[e] = true
-				return scan(e.b, e.idx)
+				return scan(e.b, e.idx, env)
+			}
+		}
+		only := -1
+		if ifi, isIf := b.Instrs[len(b.Instrs)-1].(*ssa.If); isIf && env != "" {
+			if v, ok := known(env, ifi.Cond); ok {
+				only = 1
+				if v {
+					only = 0
+				}
 			}
 		}
 		for i, s := range b.Succs {
 			if cut != nil && cut(b, i) {
 				continue
 			}
-			if seen[pos{s, 0}] {
+			if only >= 0 && i != only {
 				continue
 			}
-			seen[pos{s, 0}] = true
-			if scan(s, 0) {
+			nx := pos{s, 0, env}
+			if seen[nx] {
+				continue
+			}
+			seen[nx] = true
+			if scan(s, 0, env) {
 				return true
 			}
 		}
 		return false
 	}
-	return scan(st.b, st.idx)
+	return scan(st.b, st.idx, st.env)
 }
 
 func IsReturn(in ssa.Instruction) bool { _, ok := in.(*ssa.Return); return ok }
